@@ -1,4 +1,310 @@
-//@ props=C18
+//@ props=C07,C08,C09,C18
+//! Lemmas (all proved, nothing assumed) that connect the 4-lane row form of the BLAKE2b compression function used by
+//! src/blake2b/blake2b_simd.rs with RFC 7693 (spec_blake2b.rs): the working vector v[0..15] is held as four rows
+//! a = v[0..3], b = v[4..7], c = v[8..11], d = v[12..15]; a "column step" applies G to the four columns lane-wise,
+//! a "diagonal step" rotates the lanes of a, c, d (b stays) so that the diagonals become columns, applies G lane-wise
+//! and rotates back.
 use vstd::prelude::*;
+use crate::verif_spec::*;
+use crate::spec_blake2b::*;
+
 verus! {
+
+// ---- word level ---------------------------------------------------------------------------------------------------
+/// half of G (RFC 7693 3.1): the first four assignments with rotations (r1, r2) = (32, 24), the last four with (16, 63)
+pub open spec fn b2s_hw(a: u64, b: u64, c: u64, d: u64, x: u64, r1: u64, r2: u64) -> (u64, u64, u64, u64) {
+    let a1 = b2_add64(a, b2_add64(b, x));
+    let d1 = spec_rotr64(d ^ a1, r1);
+    let c1 = b2_add64(c, d1);
+    let b1 = spec_rotr64(b ^ c1, r2);
+    (a1, b1, c1, d1)
 }
+
+/// G on four words
+pub open spec fn b2s_gw(a: u64, b: u64, c: u64, d: u64, x: u64, y: u64) -> (u64, u64, u64, u64) {
+    let h = b2s_hw(a, b, c, d, x, 32, 24);
+    b2s_hw(h.0, h.1, h.2, h.3, y, 16, 63)
+}
+
+/// (a + b) + m == a + (b + m) modulo 2^64 (the code adds left to right, RFC 7693 writes v[a] + v[b] + x)
+pub proof fn lemma_b2s_add_assoc(a: u64, b: u64, m: u64)
+    ensures
+        b2_add64(b2_add64(a, b), m) == b2_add64(a, b2_add64(b, m)),
+{
+}
+
+pub proof fn lemma_b2s_xor_comm(x: u64, y: u64)
+    ensures
+        x ^ y == y ^ x,
+{
+    assert(x ^ y == y ^ x) by (bit_vector);
+}
+
+/// (x ^ y) ^ h == (h ^ x) ^ y: the code computes (v[i] ^ v[i+8]) ^ h[i], RFC 7693 h[i] ^ v[i] ^ v[i+8]
+pub proof fn lemma_b2s_xor3(h: u64, x: u64, y: u64)
+    ensures
+        (x ^ y) ^ h == (h ^ x) ^ y,
+{
+    assert((x ^ y) ^ h == (h ^ x) ^ y) by (bit_vector);
+}
+
+/// G of RFC 7693 touches exactly the four positions a, b, c, d
+pub proof fn lemma_b2s_g_words(v: Seq<u64>, a: int, b: int, c: int, d: int, x: u64, y: u64)
+    requires
+        v.len() == 16,
+        0 <= a < 16 && 0 <= b < 16 && 0 <= c < 16 && 0 <= d < 16,
+        a != b && a != c && a != d && b != c && b != d && c != d,
+    ensures
+        blake2b_g(v, a, b, c, d, x, y) == ({
+            let g = b2s_gw(v[a], v[b], v[c], v[d], x, y);
+            v.update(a, g.0).update(b, g.1).update(c, g.2).update(d, g.3)
+        }),
+{
+    let g = b2s_gw(v[a], v[b], v[c], v[d], x, y);
+    assert(blake2b_g(v, a, b, c, d, x, y) =~= v.update(a, g.0).update(b, g.1).update(c, g.2).update(d, g.3));
+}
+
+// ---- row level ----------------------------------------------------------------------------------------------------
+/// lane-wise rotate right of every word
+pub open spec fn b2s_rotr(v: Seq<u64>, n: u64) -> Seq<u64> {
+    Seq::new(v.len(), |i: int| spec_rotr64(v[i], n))
+}
+
+/// lane-wise half G on the rows (contract of the code's `g1` = (32, 24) and `g2` = (16, 63))
+pub open spec fn b2s_g_half(a: Seq<u64>, b: Seq<u64>, c: Seq<u64>, d: Seq<u64>, m: Seq<u64>, r1: u64, r2: u64) -> (Seq<u64>, Seq<u64>, Seq<u64>, Seq<u64>) {
+    (
+        Seq::new(4, |i: int| b2s_hw(a[i], b[i], c[i], d[i], m[i], r1, r2).0),
+        Seq::new(4, |i: int| b2s_hw(a[i], b[i], c[i], d[i], m[i], r1, r2).1),
+        Seq::new(4, |i: int| b2s_hw(a[i], b[i], c[i], d[i], m[i], r1, r2).2),
+        Seq::new(4, |i: int| b2s_hw(a[i], b[i], c[i], d[i], m[i], r1, r2).3),
+    )
+}
+
+/// lanes rotated left by k (0 <= k < 4): lane i of the result is lane (i + k) mod 4
+pub open spec fn b2s_rot_lanes(v: Seq<u64>, k: int) -> Seq<u64> {
+    Seq::new(4, |i: int| v[if i + k >= 4 { i + k - 4 } else { i + k }])
+}
+
+/// column step: G on (a[i], b[i], c[i], d[i]) with (x[i], y[i]) in every lane
+pub open spec fn b2s_cols(a: Seq<u64>, b: Seq<u64>, c: Seq<u64>, d: Seq<u64>, x: Seq<u64>, y: Seq<u64>) -> (Seq<u64>, Seq<u64>, Seq<u64>, Seq<u64>) {
+    let h = b2s_g_half(a, b, c, d, x, 32, 24);
+    b2s_g_half(h.0, h.1, h.2, h.3, y, 16, 63)
+}
+
+/// diagonal step: rotate a by 3, c by 1, d by 2 lanes (b stays), column step, rotate back
+pub open spec fn b2s_diags(a: Seq<u64>, b: Seq<u64>, c: Seq<u64>, d: Seq<u64>, x: Seq<u64>, y: Seq<u64>) -> (Seq<u64>, Seq<u64>, Seq<u64>, Seq<u64>) {
+    let g = b2s_cols(b2s_rot_lanes(a, 3), b, b2s_rot_lanes(c, 1), b2s_rot_lanes(d, 2), x, y);
+    (b2s_rot_lanes(g.0, 1), g.1, b2s_rot_lanes(g.2, 3), b2s_rot_lanes(g.3, 2))
+}
+
+/// one round of the code: column step with (x1, y1), diagonal step with (x2, y2)
+pub open spec fn b2s_round(a: Seq<u64>, b: Seq<u64>, c: Seq<u64>, d: Seq<u64>, x1: Seq<u64>, y1: Seq<u64>, x2: Seq<u64>, y2: Seq<u64>) -> (Seq<u64>, Seq<u64>, Seq<u64>, Seq<u64>) {
+    let g = b2s_cols(a, b, c, d, x1, y1);
+    b2s_diags(g.0, g.1, g.2, g.3, x2, y2)
+}
+
+/// the four message vectors of round r (RFC 7693 3.2 with s = SIGMA[r mod 10]):
+///   k = 0 / 1: the x / y operands m[s[2i]] / m[s[2i+1]] of the column G's i = 0..3
+///   k = 2 / 3: the x / y operands of the diagonal G's; lane j holds the diagonal through v[4 + j], i.e. G number (j + 3) mod 4
+pub open spec fn b2s_msg_vec(m: Seq<u64>, r: int, k: int) -> Seq<u64> {
+    if k == 0 {
+        seq![m[blake2b_sigma(r, 0)], m[blake2b_sigma(r, 2)], m[blake2b_sigma(r, 4)], m[blake2b_sigma(r, 6)]]
+    } else if k == 1 {
+        seq![m[blake2b_sigma(r, 1)], m[blake2b_sigma(r, 3)], m[blake2b_sigma(r, 5)], m[blake2b_sigma(r, 7)]]
+    } else if k == 2 {
+        seq![m[blake2b_sigma(r, 14)], m[blake2b_sigma(r, 8)], m[blake2b_sigma(r, 10)], m[blake2b_sigma(r, 12)]]
+    } else {
+        seq![m[blake2b_sigma(r, 15)], m[blake2b_sigma(r, 9)], m[blake2b_sigma(r, 11)], m[blake2b_sigma(r, 13)]]
+    }
+}
+
+/// the code's message row k: words 2k, 2k+1 twice (`loadm`)
+pub open spec fn b2s_mrow(m: Seq<u64>, k: int) -> Seq<u64> {
+    seq![m[2 * k], m[2 * k + 1], m[2 * k], m[2 * k + 1]]
+}
+
+/// the column step is the first four G applications of a round
+pub proof fn lemma_b2s_columns(a: Seq<u64>, b: Seq<u64>, c: Seq<u64>, d: Seq<u64>, x: Seq<u64>, y: Seq<u64>)
+    requires
+        a.len() == 4 && b.len() == 4 && c.len() == 4 && d.len() == 4 && x.len() == 4 && y.len() == 4,
+    ensures
+        ({
+            let g = b2s_cols(a, b, c, d, x, y);
+            &&& g.0.len() == 4 && g.1.len() == 4 && g.2.len() == 4 && g.3.len() == 4
+            &&& g.0 + g.1 + g.2 + g.3 == ({
+                let v = a + b + c + d;
+                let v = blake2b_g(v, 0, 4, 8, 12, x[0], y[0]);
+                let v = blake2b_g(v, 1, 5, 9, 13, x[1], y[1]);
+                let v = blake2b_g(v, 2, 6, 10, 14, x[2], y[2]);
+                blake2b_g(v, 3, 7, 11, 15, x[3], y[3])
+            })
+        }),
+{
+    hide(blake2b_g);
+    let v0 = a + b + c + d;
+    lemma_b2s_g_words(v0, 0, 4, 8, 12, x[0], y[0]);
+    let v1 = blake2b_g(v0, 0, 4, 8, 12, x[0], y[0]);
+    lemma_b2s_g_words(v1, 1, 5, 9, 13, x[1], y[1]);
+    let v2 = blake2b_g(v1, 1, 5, 9, 13, x[1], y[1]);
+    lemma_b2s_g_words(v2, 2, 6, 10, 14, x[2], y[2]);
+    let v3 = blake2b_g(v2, 2, 6, 10, 14, x[2], y[2]);
+    lemma_b2s_g_words(v3, 3, 7, 11, 15, x[3], y[3]);
+    let v4 = blake2b_g(v3, 3, 7, 11, 15, x[3], y[3]);
+    let g = b2s_cols(a, b, c, d, x, y);
+    assert(g.0 + g.1 + g.2 + g.3 =~= v4);
+}
+
+/// the column step, lane by lane
+pub proof fn lemma_b2s_cols_lanes(a: Seq<u64>, b: Seq<u64>, c: Seq<u64>, d: Seq<u64>, x: Seq<u64>, y: Seq<u64>)
+    ensures
+        ({
+            let g = b2s_cols(a, b, c, d, x, y);
+            &&& g.0.len() == 4 && g.1.len() == 4 && g.2.len() == 4 && g.3.len() == 4
+            &&& forall|j: int| 0 <= j < 4 ==> {
+                    let w = #[trigger] b2s_gw(a[j], b[j], c[j], d[j], x[j], y[j]);
+                    g.0[j] == w.0 && g.1[j] == w.1 && g.2[j] == w.2 && g.3[j] == w.3
+                }
+        }),
+{
+}
+
+/// the four diagonal G applications of RFC 7693, element by element
+pub proof fn lemma_b2s_diag_rfc(v: Seq<u64>, x: Seq<u64>, y: Seq<u64>)
+    requires
+        v.len() == 16 && x.len() == 4 && y.len() == 4,
+    ensures
+        ({
+            let w0 = b2s_gw(v[3], v[4], v[9], v[14], x[0], y[0]);
+            let w1 = b2s_gw(v[0], v[5], v[10], v[15], x[1], y[1]);
+            let w2 = b2s_gw(v[1], v[6], v[11], v[12], x[2], y[2]);
+            let w3 = b2s_gw(v[2], v[7], v[8], v[13], x[3], y[3]);
+            seq![w1.0, w2.0, w3.0, w0.0, w0.1, w1.1, w2.1, w3.1, w3.2, w0.2, w1.2, w2.2, w2.3, w3.3, w0.3, w1.3]
+        }) == ({
+            let v = blake2b_g(v, 0, 5, 10, 15, x[1], y[1]);
+            let v = blake2b_g(v, 1, 6, 11, 12, x[2], y[2]);
+            let v = blake2b_g(v, 2, 7, 8, 13, x[3], y[3]);
+            blake2b_g(v, 3, 4, 9, 14, x[0], y[0])
+        }),
+{
+    hide(blake2b_g);
+    hide(b2s_gw);
+    let v0 = v;
+    lemma_b2s_g_words(v0, 0, 5, 10, 15, x[1], y[1]);
+    let v1 = blake2b_g(v0, 0, 5, 10, 15, x[1], y[1]);
+    lemma_b2s_g_words(v1, 1, 6, 11, 12, x[2], y[2]);
+    let v2 = blake2b_g(v1, 1, 6, 11, 12, x[2], y[2]);
+    lemma_b2s_g_words(v2, 2, 7, 8, 13, x[3], y[3]);
+    let v3 = blake2b_g(v2, 2, 7, 8, 13, x[3], y[3]);
+    lemma_b2s_g_words(v3, 3, 4, 9, 14, x[0], y[0]);
+    let v4 = blake2b_g(v3, 3, 4, 9, 14, x[0], y[0]);
+    let w0 = b2s_gw(v[3], v[4], v[9], v[14], x[0], y[0]);
+    let w1 = b2s_gw(v[0], v[5], v[10], v[15], x[1], y[1]);
+    let w2 = b2s_gw(v[1], v[6], v[11], v[12], x[2], y[2]);
+    let w3 = b2s_gw(v[2], v[7], v[8], v[13], x[3], y[3]);
+    assert(seq![w1.0, w2.0, w3.0, w0.0, w0.1, w1.1, w2.1, w3.1, w3.2, w0.2, w1.2, w2.2, w2.3, w3.3, w0.3, w1.3] =~= v4);
+}
+
+/// the diagonal step of the code (lane rotation, lane-wise G, rotation back), element by element
+pub proof fn lemma_b2s_diag_rows(a: Seq<u64>, b: Seq<u64>, c: Seq<u64>, d: Seq<u64>, x: Seq<u64>, y: Seq<u64>)
+    requires
+        a.len() == 4 && b.len() == 4 && c.len() == 4 && d.len() == 4 && x.len() == 4 && y.len() == 4,
+    ensures
+        ({
+            let g = b2s_diags(a, b, c, d, x, y);
+            let w0 = b2s_gw(a[3], b[0], c[1], d[2], x[0], y[0]);
+            let w1 = b2s_gw(a[0], b[1], c[2], d[3], x[1], y[1]);
+            let w2 = b2s_gw(a[1], b[2], c[3], d[0], x[2], y[2]);
+            let w3 = b2s_gw(a[2], b[3], c[0], d[1], x[3], y[3]);
+            &&& g.0 == seq![w1.0, w2.0, w3.0, w0.0]
+            &&& g.1 == seq![w0.1, w1.1, w2.1, w3.1]
+            &&& g.2 == seq![w3.2, w0.2, w1.2, w2.2]
+            &&& g.3 == seq![w2.3, w3.3, w0.3, w1.3]
+        }),
+{
+    hide(b2s_cols);
+    hide(b2s_gw);
+    let pa = b2s_rot_lanes(a, 3);
+    let pc = b2s_rot_lanes(c, 1);
+    let pd = b2s_rot_lanes(d, 2);
+    lemma_b2s_cols_lanes(pa, b, pc, pd, x, y);
+    let h = b2s_cols(pa, b, pc, pd, x, y);
+    let w0 = b2s_gw(pa[0], b[0], pc[0], pd[0], x[0], y[0]);
+    let w1 = b2s_gw(pa[1], b[1], pc[1], pd[1], x[1], y[1]);
+    let w2 = b2s_gw(pa[2], b[2], pc[2], pd[2], x[2], y[2]);
+    let w3 = b2s_gw(pa[3], b[3], pc[3], pd[3], x[3], y[3]);
+    let g = b2s_diags(a, b, c, d, x, y);
+    assert(g.0 =~= seq![w1.0, w2.0, w3.0, w0.0]);
+    assert(g.1 =~= seq![w0.1, w1.1, w2.1, w3.1]);
+    assert(g.2 =~= seq![w3.2, w0.2, w1.2, w2.2]);
+    assert(g.3 =~= seq![w2.3, w3.3, w0.3, w1.3]);
+}
+
+/// the diagonal step is the last four G applications of a round; x / y hold the operands of G number 7, 4, 5, 6
+pub proof fn lemma_b2s_diagonals(a: Seq<u64>, b: Seq<u64>, c: Seq<u64>, d: Seq<u64>, x: Seq<u64>, y: Seq<u64>)
+    requires
+        a.len() == 4 && b.len() == 4 && c.len() == 4 && d.len() == 4 && x.len() == 4 && y.len() == 4,
+    ensures
+        ({
+            let g = b2s_diags(a, b, c, d, x, y);
+            &&& g.0.len() == 4 && g.1.len() == 4 && g.2.len() == 4 && g.3.len() == 4
+            &&& g.0 + g.1 + g.2 + g.3 == ({
+                let v = a + b + c + d;
+                let v = blake2b_g(v, 0, 5, 10, 15, x[1], y[1]);
+                let v = blake2b_g(v, 1, 6, 11, 12, x[2], y[2]);
+                let v = blake2b_g(v, 2, 7, 8, 13, x[3], y[3]);
+                blake2b_g(v, 3, 4, 9, 14, x[0], y[0])
+            })
+        }),
+{
+    hide(blake2b_g);
+    hide(b2s_gw);
+    hide(b2s_diags);
+    let v = a + b + c + d;
+    lemma_b2s_diag_rfc(v, x, y);
+    lemma_b2s_diag_rows(a, b, c, d, x, y);
+    let g = b2s_diags(a, b, c, d, x, y);
+    let w0 = b2s_gw(a[3], b[0], c[1], d[2], x[0], y[0]);
+    let w1 = b2s_gw(a[0], b[1], c[2], d[3], x[1], y[1]);
+    let w2 = b2s_gw(a[1], b[2], c[3], d[0], x[2], y[2]);
+    let w3 = b2s_gw(a[2], b[3], c[0], d[1], x[3], y[3]);
+    assert(g.0 + g.1 + g.2 + g.3 =~= seq![w1.0, w2.0, w3.0, w0.0, w0.1, w1.1, w2.1, w3.1, w3.2, w0.2, w1.2, w2.2, w2.3, w3.3, w0.3, w1.3]);
+}
+
+/// one round of the code is one round of RFC 7693
+pub proof fn lemma_b2s_round(a: Seq<u64>, b: Seq<u64>, c: Seq<u64>, d: Seq<u64>, m: Seq<u64>, r: int)
+    requires
+        a.len() == 4 && b.len() == 4 && c.len() == 4 && d.len() == 4,
+        m.len() == 16,
+        0 <= r < 12,
+    ensures
+        ({
+            let g = b2s_round(a, b, c, d, b2s_msg_vec(m, r, 0), b2s_msg_vec(m, r, 1), b2s_msg_vec(m, r, 2), b2s_msg_vec(m, r, 3));
+            &&& g.0.len() == 4 && g.1.len() == 4 && g.2.len() == 4 && g.3.len() == 4
+            &&& g.0 + g.1 + g.2 + g.3 == blake2b_round(a + b + c + d, m, r)
+        }),
+{
+    hide(blake2b_g);
+    hide(b2s_cols);
+    hide(b2s_diags);
+    let x1 = b2s_msg_vec(m, r, 0);
+    let y1 = b2s_msg_vec(m, r, 1);
+    let x2 = b2s_msg_vec(m, r, 2);
+    let y2 = b2s_msg_vec(m, r, 3);
+    lemma_b2s_columns(a, b, c, d, x1, y1);
+    let g = b2s_cols(a, b, c, d, x1, y1);
+    lemma_b2s_diagonals(g.0, g.1, g.2, g.3, x2, y2);
+}
+
+/// the sixteen message words of a block as the code loads them (`load_u64_le(&block[8 i .. 8 i + 8])`)
+pub proof fn lemma_b2s_block_words(block: Seq<u8>, i: int)
+    requires
+        block.len() >= 128,
+        0 <= i < 16,
+    ensures
+        block.subrange(8 * i, 8 * i + 8).subrange(0, 8) == block.subrange(0, 128).subrange(8 * i, 8 * i + 8),
+        blake2b_msg_words(block.subrange(0, 128))[i] == le_nat(block.subrange(8 * i, 8 * i + 8).subrange(0, 8)) as u64,
+{
+    assert(block.subrange(8 * i, 8 * i + 8).subrange(0, 8) =~= block.subrange(0, 128).subrange(8 * i, 8 * i + 8));
+}
+
+} // verus!
